@@ -5,7 +5,8 @@
 (*       raised, dtout, x[], y[] (the MIDDLE HALF of input and output),    *)
 (*       nout (length of the output) -- zero phase with gain |H(f)|^2      *)
 (*  kind "rel":  law in {"same", "lin"}: as in Trace_Oscillator            *)
-(*  kind "detrend": deg, x[], y[], y2[], yp[]                               *)
+(*  kind "detrend": deg, x[], y[], y2[], yp[], pscale (size of the          *)
+(*       polynomial that was added before computing yp)                    *)
 (*  kind "add":  x[], inc[] (what was added, element-wise), y[], raised,   *)
 (*       must_raise                                                        *)
 (*  kind "runav": w, x[], y[]                                              *)
@@ -38,7 +39,8 @@ DetrendCheck ==
   IN IF Len(R.y) # n THEN {"LengthDtPreserved"}
      ELSE Fails(n <= d + 1 \/ \A j \in 1..(n - d - 1) : Close(Diff(diff, d + 1)[j], Zero, FMul(tol, FInt(32))), "DetrendIsPoly")
           \cup Fails(\A p \in 0..d : Close(Moment(R.y, p), Zero, FMul(tol, FInt(n))), "DetrendOrthogonal")
-          \cup Fails(near(R.y2, R.y), "DetrendIdempotent") \cup Fails(near(R.yp, R.y), "DetrendPolyInvariant")
+          \cup Fails(near(R.y2, R.y), "DetrendIdempotent")
+          \cup Fails(Len(R.yp) = n /\ \A j \in 1..n : Close(R.yp[j], R.y[j], FMul(FStr("1e-7"), FAdd(sc, R.pscale))), "DetrendPolyInvariant")
 AddCheck ==
   IF R.must_raise THEN Fails(R.raised, "AddRejects")
   ELSE IF R.raised THEN {"AddElementwise"}
